@@ -547,6 +547,8 @@ def nullable(t):
         return False
     if k == "act":
         return nullable(t[3])
+    if k == "hist":
+        return nullable(t[2])
     if k == "seq":
         return nullable(t[1]) and nullable(t[2])
     if k == "alt":
@@ -561,9 +563,59 @@ def nullable(t):
 
 
 def strip_act(t):
-    while t[0] == "act":
-        t = t[3]
+    while t[0] in DECO:
+        t = t[3] if t[0] == "act" else t[2]
     return t
+
+
+# ---- an element's action configuration as a history of operations (PP.ActionGate.Op / runOps) ------------------
+DECO = ("act", "hist")
+KW_SPELL = ("call_during_try", "callDuringTry")
+
+
+def op_kw(op):
+    return bool(op.get("kw")) if op["op"] in ("set", "add", "cond") else False
+
+
+def hist_cfg(ops):
+    """(installed actions, call_during_try) the documented way: set_parse_action replaces both, add_* append and
+    or the keyword in, set_parse_action(None) removes all actions (and what belonged to them), copy keeps.
+    Equals PP.ActionGate.runOps on every history without `clear while the flag is set` (flag_after_history,
+    acts_after_history); the generators stay out of that region."""
+    acts, cdt = [], False
+    for op in ops:
+        o = op["op"]
+        if o == "set":
+            acts, cdt = list(op["acts"]), op_kw(op)
+        elif o in ("add", "cond"):
+            acts, cdt = acts + list(op["acts"]), cdt or op_kw(op)
+        elif o == "clear":
+            acts, cdt = [], False
+    return acts, cdt
+
+
+def hist_in_clear_region(ops):
+    """set_parse_action(None) while callDuringTry is set (the code leaves the flag on: candidate finding)"""
+    cdt = False
+    for op in ops:
+        o = op["op"]
+        if o == "set":
+            cdt = op_kw(op)
+        elif o in ("add", "cond"):
+            cdt = cdt or op_kw(op)
+        elif o == "clear" and cdt:
+            return True
+    return False
+
+
+def op_sexp(op):
+    o = op["op"]
+    if o == "clear":
+        return Sym("clear")
+    if o in ("copy", "name"):
+        return Sym("copy")
+    kw = Sym("none") if op.get("kw") is None else bool(op["kw"])
+    return [Sym(o), [[a["id"], Sym(a["kind"])] for a in op["acts"]], kw]
 
 
 def tree_sexp(t):
@@ -572,6 +624,8 @@ def tree_sexp(t):
         return [Sym("lit"), t[1]]
     if k == "act":
         return [Sym("act"), [[a["id"], Sym(a["kind"])] for a in t[1]], bool(t[2]), tree_sexp(t[3])]
+    if k == "hist":
+        return [Sym("hist"), [op_sexp(op) for op in t[1]], tree_sexp(t[2])]
     if k in ("seq", "alt"):
         return [Sym(k), tree_sexp(t[1]), tree_sexp(t[2])]
     if k in ("or", "each"):
@@ -591,6 +645,10 @@ def firable(t, da):
     if k == "act":
         own = {a["id"] for a in t[1]} if (da or t[2]) else set()
         return own | firable(t[3], da)
+    if k == "hist":
+        acts, cdt = hist_cfg(t[1])
+        own = {a["id"] for a in acts} if (da or cdt) else set()
+        return own | firable(t[2], da)
     if k in ("seq", "alt"):
         return firable(t[1], da) | firable(t[2], da)
     if k in ("or", "each"):
@@ -643,14 +701,18 @@ def hook_first_pass(e, child_tree, log):
     return e
 
 
-def make_logger(pp, a, log):
-    """a real callable of shape a['shape'] that logs (id, loc or -1) and then behaves as a['kind']"""
+def make_logger(pp, a, log, as_cond=False):
+    """a real callable of shape a['shape'] that logs (id, loc or -1) and then behaves as a['kind'];
+    as_cond: a predicate for add_condition (keep = True; fail / fatal = False, the exception class comes from
+    add_condition's `fatal`)"""
     aid, kind, shape = a["id"], a["kind"], a["shape"]
 
     def core(s, l, have_s, have_l):
         log.append((aid, l if have_l else -1))
         if getattr(log, "trial", None):
             log.trial_events.append((aid, log.trial[-1]))
+        if as_cond and kind in ("keep", "fail", "fatal"):
+            return kind == "keep"
         if kind == "keep":
             return None
         if kind == "fail":
@@ -722,13 +784,42 @@ def make_logger(pp, a, log):
 SHAPE_HAS_LOC = {sh: not sh.endswith(("1", "0")) for sh in ACTION_SHAPES}
 
 
+def apply_ops(pp, e, ops, log):
+    """the history of operations on one element, as a user would write it"""
+    for n, op in enumerate(ops):
+        o = op["op"]
+        if o == "clear":
+            e.set_parse_action(None)
+            continue
+        if o == "copy":
+            e = e.copy()
+            continue
+        if o == "name":
+            e = e("n%d" % n)
+            continue
+        kwargs = {} if op.get("kw") is None else {KW_SPELL[op.get("spell", 0)]: op["kw"]}
+        if o == "cond":
+            if op.get("fatal"):
+                kwargs["fatal"] = True
+            e.add_condition(*[make_logger(pp, a, log, as_cond=True) for a in op["acts"]], **kwargs)
+        else:
+            fns = [make_logger(pp, a, log) for a in op["acts"]]
+            (e.set_parse_action if o == "set" else e.add_parse_action)(*fns, **kwargs)
+    return e
+
+
 def build_real(pp, t, log):
     k = t[0]
     if k == "lit":
         return pp.Literal(t[1])
+    if k == "hist":
+        e = build_real(pp, t[2], log)
+        if t[2][0] in DECO:
+            e = pp.And([e])
+        return apply_ops(pp, e, t[1], log)
     if k == "act":
         e = build_real(pp, t[3], log)
-        if t[3][0] == "act":
+        if t[3][0] in DECO:
             e = pp.And([e])
         fns = [make_logger(pp, a, log) for a in t[1]]
         if fns:
@@ -770,6 +861,10 @@ def acts_of(t, out=None):
     if t[0] == "act":
         for a in t[1]:
             out[a["id"]] = a
+    if t[0] == "hist":
+        for op in t[1]:
+            for a in op.get("acts", ()):
+                out[a["id"]] = a
     for x in t[1:]:
         if isinstance(x, (list, tuple)) and x and isinstance(x[0], str):
             acts_of(x, out)
@@ -831,9 +926,57 @@ class TreeGen:
 
     def maybe_act(self, t, p=0.6):
         rng = self.rng
-        if t[0] != "act" and rng.random() < p:
+        if t[0] not in DECO and rng.random() < p:
+            if rng.random() < self.p_hist:
+                ops = self.history(focus=rng.random() < self.p_focus)
+                if p >= 1.0 and not hist_cfg(ops)[0]:  # the caller needs an element that carries an action
+                    ops.append(self.one_op("add", None))
+                    ops[-1]["acts"] = ops[-1]["acts"] or self.act_list()
+                return ("hist", ops, t)
             return ("act", self.act_list(), rng.random() < 0.15, t)
         return t
+
+    p_hist = 0.3
+    p_focus = 0.35
+
+    def one_op(self, o, kw):
+        """operation `o` with keyword `kw` (None = not given)"""
+        rng = self.rng
+        op = {"op": o}
+        if o in ("set", "add", "cond"):
+            acts = self.act_list() if rng.random() < 0.93 else []
+            op["fatal"] = o == "cond" and rng.random() < 0.2
+            if o == "cond":
+                for a in acts:  # a falsy predicate raises what add_condition's `fatal` says
+                    if a["kind"] in ("fail", "fatal"):
+                        a["kind"] = "fatal" if op["fatal"] else "fail"
+            op.update(acts=acts, kw=kw, spell=rng.randrange(2))
+        return op
+
+    def history(self, focus=False):
+        """a sequence of operations on one element.  focus: some operation carries call_during_try=True and a later
+        set_parse_action comes without it (the flag must be gone)."""
+        rng = self.rng
+        ops = []
+        if focus:
+            pre = rng.choice(["set", "add", "cond", "cond"])
+            ops.append(self.one_op(pre, True))
+            if rng.random() < 0.3:
+                ops.append(self.one_op(rng.choice(["add", "cond", "copy", "name"]), rng.choice([None, None, False, True])))
+            ops.append(self.one_op("set", rng.choice([None, None, False])))
+            for _ in range(rng.choice([0, 0, 1])):
+                ops.append(self.one_op(rng.choice(["add", "cond", "copy", "name"]), rng.choice([None, False])))
+        else:
+            for _ in range(rng.choice([1, 2, 2, 3, 4])):
+                o = rng.choice(["set", "set", "add", "add", "cond", "clear", "copy", "name"])
+                ops.append(self.one_op(o, rng.choice([None, None, None, False, True])))
+        # stay out of `set_parse_action(None)` while the flag is set
+        while hist_in_clear_region(ops):
+            for i, op in enumerate(ops):
+                if op["op"] == "clear" and hist_in_clear_region(ops[: i + 1]):
+                    ops[i] = {"op": "copy"}
+                    break
+        return ops
 
     def nonnull(self, d):
         for _ in range(20):
@@ -893,6 +1036,8 @@ def sentence(rng, t, budget=8):
         return t[1]
     if k == "act":
         return sentence(rng, t[3], budget)
+    if k == "hist":
+        return sentence(rng, t[2], budget)
     if k == "seq":
         return sentence(rng, t[1]) + rng.choice(["", " "]) + sentence(rng, t[2])
     if k in ("alt",):
@@ -918,14 +1063,16 @@ def sentence(rng, t, budget=8):
     return rng.choice(["", "a", "b", "c"])  # not
 
 
-def gen_gate_cases(ctx):
-    rng = ctx.subrng("gate")
+def gen_gate_cases(ctx, tag="gate", n=None, p_hist=None, p_focus=None, depths=(1, 2, 2, 3, 3, 4)):
+    rng = ctx.subrng(tag)
     cases = []
-    for i in range(ctx.budget(2500, 40000)):
+    for i in range(ctx.budget(2500, 40000) if n is None else n):
         g = TreeGen(rng)
-        t = g.tree(rng.choice([1, 2, 2, 3, 3, 4]))
+        if p_hist is not None:
+            g.p_hist, g.p_focus = p_hist, p_focus
+        t = g.tree(rng.choice(depths))
         if not acts_of(t):
-            t = ("act", g.act_list(), False, t) if t[0] != "act" else t
+            t = ("act", g.act_list(), False, t) if t[0] not in DECO else ("act", g.act_list(), False, ("seq", t, ("lit", "a")))
         ins = set()
         for _ in range(3):
             s = sentence(rng, t)
@@ -959,8 +1106,8 @@ def oracle_gate(t, s, da, log):
     return None
 
 
-def check_gate(ctx, pp):
-    cases = gen_gate_cases(ctx)
+def check_gate(ctx, pp, stream="gate", cases=None):
+    cases = gen_gate_cases(ctx) if cases is None else cases
     lines = [sx(Sym("gate"), tree_sexp(t), s, da) for t, s, da in cases]
     mouts = ctx.driver.run_sharded(lines)
     keep_c, keep_l, keep_m, impl, js = [], [], [], [], []
@@ -978,7 +1125,7 @@ def check_gate(ctx, pp):
         keep_l.append(ln)
         impl.append(io)
         js.append({"tree": sx(tree_sexp(t)), "shapes": {str(i): a["shape"] for i, a in acts.items()}, "s": s, "da": da,
-                   "_tree": t})
+                   "_case": (t, s, da)})
         bad = oracle_gate(t, s, da, log)
         if not bad and da:
             io2, log2 = run_gate_real(pp, t, s, True, via_parse_string=True)
@@ -989,12 +1136,97 @@ def check_gate(ctx, pp):
             n_fail += 1
             ctx.fail_input("action fired during trial matching", {"tree": t, "s": s, "da": da}, bad[0], io,
                            theorem=bad[1], how="harness/props/c13.py run_gate_real(tree, s, da)")
-    for j in js:
-        j.pop("_tree")
-    ctx.notes["gate_skipped_model_hang"] = skipped
-    ctx.correspond("gate", js, keep_l, impl, model_outputs=keep_m,
-                   nontrivial=lambda c, o: "((" in o.split(" ", 1)[-1] or o.startswith("((ok"),
-                   outcome_of=lambda c, o: o.split(" ", 1)[0].lstrip("(").rstrip(")") + ("/da" if c["da"] else "/try"))
+    ctx.notes[stream + "_skipped_model_hang"] = skipped
+    kept = [j.pop("_case") for j in js]
+    diffs = ctx.correspond(stream, js, keep_l, impl, model_outputs=keep_m,
+                           nontrivial=lambda c, o: "((" in o.split(" ", 1)[-1] or o.startswith("((ok"),
+                           outcome_of=lambda c, o: o.split(" ", 1)[0].lstrip("(").rstrip(")") + ("/da" if c["da"] else "/try"))
+    return [kept[i] for i in diffs]
+
+
+# ---- operation histories on one element: the live attributes against PP.ActionGate.runOps ---------------------
+def gen_ops_cases(ctx, n, tag="gate-ops"):
+    rng = ctx.subrng(tag)
+    g = TreeGen(rng)
+    cases = []
+    for _ in range(n):
+        ops = g.history(focus=rng.random() < 0.5)
+        if rng.random() < 0.4:
+            ops = ops + g.history(focus=rng.random() < 0.5)
+        for op in ops:
+            for a in op.get("acts", ()):
+                a["kind"] = "keep"  # every installed action fires, in order, when the element matches for real
+        while hist_in_clear_region(ops):
+            i = next(i for i, op in enumerate(ops) if op["op"] == "clear" and hist_in_clear_region(ops[: i + 1]))
+            ops[i] = {"op": "copy"}
+        cases.append((rng.choice(["lit", "word", "and"]), ops))
+    return cases
+
+
+def run_ops_real(pp, base, ops):
+    """after every operation: (ids fired by a real match, bool(callDuringTry), ids fired by a trial match)"""
+    log = Log()
+    e = {"lit": lambda: pp.Literal("a"), "word": lambda: pp.Word("a"),
+         "and": lambda: pp.And([pp.Literal("a")])}[base]()
+    out = []
+    for i in range(len(ops)):
+        e = apply_ops(pp, e, ops[i:i + 1], log)
+        del log[:]
+        try:
+            common.with_alarm(5, e.parse_string, "a")
+        except common.CaseTimeout:
+            raise
+        except Exception as x:  # noqa
+            log.append(("exc-" + type(x).__name__, 0))
+        real = [i_ for i_, _ in log]
+        del log[:]
+        try:
+            common.with_alarm(5, e.try_parse, "a", 0)
+        except common.CaseTimeout:
+            raise
+        except Exception as x:  # noqa
+            log.append(("exc-" + type(x).__name__, 0))
+        trial = [i_ for i_, _ in log]
+        out.append((real, bool(e.callDuringTry), trial))
+    return out
+
+
+def oracle_ops(ops, obs):
+    """flag_after_history / acts_after_history / replaced_action_silent_when_trying on the real element"""
+    for i, (real, _flag, trial) in enumerate(obs):
+        acts, cdt = hist_cfg(ops[: i + 1])
+        ids = [a["id"] for a in acts]
+        if real != ids:
+            return (f"after operation {i} ({ops[i]['op']}) a real match fires the actions {real}, installed are {ids}",
+                    "PP.ActionGate.acts_after_history / set_parse_action_replaces")
+        if not cdt and trial:
+            return (f"after operation {i} ({ops[i]['op']}) the element has no call_during_try in force, yet a trial "
+                    f"match (try_parse, do_actions=False) fires {trial}",
+                    "PP.ActionGate.replaced_action_silent_when_trying / flag_after_history")
+        if cdt and trial != ids:
+            return (f"after operation {i} call_during_try is in force, a trial match fires {trial}, expected {ids}",
+                    "PP.ActionGate.flag_after_history / add_never_clears")
+    return None
+
+
+def check_ops(ctx, pp, n, tag="gate-ops"):
+    cases = gen_ops_cases(ctx, n, tag)
+    lines = [sx(Sym("ops"), [op_sexp(op) for op in ops]) for _, ops in cases]
+    impl, js = [], []
+    n_fail = 0
+    for base, ops in cases:
+        obs = run_ops_real(pp, base, ops)
+        impl.append(sx([[real, flag] for real, flag, _ in obs]))
+        js.append({"base": base, "ops": ops})
+        bad = oracle_ops(ops, obs)
+        if bad and n_fail < 3:
+            n_fail += 1
+            ctx.fail_input("action configuration after a history of set_/add_ operations", {"base": base, "ops": ops},
+                           bad[0], sx([[r, f, t] for r, f, t in obs]), theorem=bad[1],
+                           how="harness/props/c13.py run_ops_real(base, ops)")
+    diffs = ctx.correspond("gate-ops", js, lines, impl,
+                           outcome_of=lambda c, o: "+".join(op["op"] for op in c["ops"][:3]))
+    return [cases[i] for i in diffs]
 
 
 # ================================================================================================
@@ -1135,7 +1367,11 @@ def run(ctx):
     check_trim(ctx, pp, cfg)
     check_clevel(ctx, pp, cfg)
     check_builtins(ctx, pp)
-    check_gate(ctx, pp)
+    seeds = {"gate": check_gate(ctx, pp)}
+    # elements configured through histories of set_parse_action / add_parse_action / add_condition / copy
+    seeds["gate-hist"] = check_gate(ctx, pp, stream="gate-hist", cases=gen_gate_cases(
+        ctx, tag="gate-hist", n=ctx.budget(600, 8000), p_hist=1.0, p_focus=0.7, depths=(1, 1, 2, 2, 3)))
+    seeds["gate-ops"] = check_ops(ctx, pp, ctx.budget(800, 10000))
     ctx.assumptions.append("C13: CPython traceback layout (binding failure has no callee frame) is assumed by the model "
                            "and validated only by the correspondence run")
 
@@ -1153,6 +1389,8 @@ def replay(data):
             _, log = run_gate_real(pp, t, case["s"], True, via_parse_string=True)
             bad = oracle_gate(t, case["s"], True, log)
         return bad is not None
+    if "ops" in case:
+        return oracle_ops(case["ops"], run_ops_real(pp, case["base"], case["ops"])) is not None
     if "behs" in case:
         behs = [tuple(b) for b in case["behs"]]
         obs, acc, is_class = run_real(pp, case["mode"], case["kind"], case["k"], behs)
